@@ -28,21 +28,6 @@ Fixpoint path (e : jexpr) : bool :=
   end.
 Definition recv_ok (r : jexpr) : bool := path r.
 
-(* string-transparent contexts: shapes that carry a string to the output without looking into it *)
-Fixpoint transp (e : jexpr) : bool :=
-  match e with
-  | JId _ | JStr _ | JNum _ => true
-  | JDot a _ => path a
-  | JIdx a (JNum _) => path a
-  | JBin BAdd a b | JBin BOr a b | JBin BAnd a b => transp a && transp b
-  | JCond c a b => cond_ok c && transp a && transp b
-  | JTpl parts => forallb (fun p => match p with inl _ => true | inr x => transp x end) parts
-  | JArr es => forallb transp es
-  | JCall (JDot r name) [JNum 0%Z] => beqb name (B "slice") && recv_ok r
-  | JCall (JDot r name) [JStr _] => beqb name (B "join") && recv_ok r
-  | _ => false
-  end.
-
 (* NAMING RULE of the domain: whatever may hold the hostile string has a name that starts with `h` (top-level data
    names, loop variables over them, mixin parameters, variables declared from them) or is the mixin variable
    `attributes`; everything else is harmless: equal in both renders and free of the marker (data_ok below). *)
@@ -64,6 +49,55 @@ Fixpoint hfree (e : jexpr) : bool :=
   | JCond c a b => hfree c && hfree a && hfree b
   | JAssign _ l r => hfree l && hfree r
   | JVar x i => negb (hostile_name x) && match i with Some a => hfree a | None => true end
+  end.
+
+(* an argument that denotes the number 0 whatever the hostile string is: the literal, the harmless data name `z`
+   (bound to 0: z_zero below, decided from the case's data), logical defaults of such (`z || 0`), and a guard that
+   stops at such a value (`0 && e`, e harmless) *)
+Fixpoint zero_arg (e : jexpr) : bool :=
+  match e with
+  | JNum 0%Z => true
+  | JId x => beqb x (B "z")
+  | JBin BOr a b => zero_arg a && zero_arg b
+  | JBin BAnd a b => zero_arg a && hfree b
+  | _ => false
+  end.
+
+Definition eq_op (op : binop) : bool :=
+  match op with BEq | BNe | BSEq | BSNe => true | _ => false end.
+(* null: the literal, or the harmless data name `nl` (bound to null: nl_nil below) *)
+Definition is_nil (e : jexpr) : bool :=
+  match e with JNull => true | JId x => beqb x (B "nl") | _ => false end.
+
+(* string-transparent contexts: shapes that carry a string to the output without looking into it.
+   The compiler decides PER EXPRESSION SHAPE whether the escaper is appended, so the class is closed under every way
+   of combining a carrier with a partner that is harmless (hfree: any operator, any literal kind, harmless data —
+   its value is the same in both renders):
+     * a harmless expression is transparent (it prints the same text twice);
+     * a + b, a || b, a && b, c ? a : b over transparent operands: the value is one of the operands or their
+       concatenation; WHICH one is decided by the truth of an operand, and the truth of a transparent value is the
+       same in both renders (the hostile string and the marker are non-empty: no_edge_ws; everything else is equal);
+       `number + string` is the engine's numeric addition, which reads the string as a number: the hostile strings
+       and the marker are no numerals (not_numeral below), so both renders print the same number;
+     * !a and a == null / a != null (=== / !==, either order, null the literal or the data `nl`) over a transparent
+       a: the same boolean twice;
+     * members, literal indices, template and array literals, slice(0) / join(sep) results. *)
+Fixpoint transp (e : jexpr) : bool :=
+  hfree e ||
+  match e with
+  | JId _ => true
+  | JDot a _ => path a
+  | JIdx a (JNum _) => path a
+  | JBin BAdd a b | JBin BOr a b | JBin BAnd a b => transp a && transp b
+  | JBin op a b => eq_op op && ((is_nil b && transp a) || (is_nil a && transp b))
+  | JUn UNot _ a => transp a
+  | JCond c a b => transp c && transp a && transp b
+  | JTpl parts => forallb (fun p => match p with inl _ => true | inr x => transp x end) parts
+  | JArr es => forallb transp es
+  | JCall (JDot r name) [a] =>
+    recv_ok r && ((beqb name (B "slice") && zero_arg a) ||
+                  (beqb name (B "join") && match a with JStr _ => true | _ => false end))
+  | _ => false
   end.
 
 (* one statement of a code node.  A declaration / plain assignment writes nothing; what it stores must stay under the
@@ -106,7 +140,7 @@ Fixpoint shape04 (opq : bool) (n : pnode) : bool :=
   | PCode stmts esc _ => forallb (stmt04 opq esc) stmts
   (* the same expression, unescaped, in a branch that is never taken (the data binds `never` to false) *)
   | PCond (JId x) [PCode [SExpr e] false _] None => (beqb x (B "never") && transp e) || hfree e
-  | PCond c t a => cond_ok c && all t && match a with Some a' => shape04 opq a' | None => true end
+  | PCond c t a => (cond_ok c || transp c) && all t && match a with Some a' => shape04 opq a' | None => true end
   | PEach v k obj b =>
     path obj && all b &&
     (hfree obj || (hostile_name v && match k with Some k' => hostile_name k' | None => true end))
@@ -198,8 +232,28 @@ Definition never_false (d : dval) : bool :=
   | _ => false
   end.
 
+(* `z`, when the data binds it, is the number 0 (zero_arg) *)
+Definition z_zero (d : dval) : bool :=
+  match d with
+  | DMap l => match lookup (B "z") l with Some (DInt 0%Z) | None => true | _ => false end
+  | _ => false
+  end.
+
+Definition nl_nil (d : dval) : bool :=
+  match d with
+  | DMap l => match lookup (B "nl") l with Some DNil | None => true | _ => false end
+  | _ => false
+  end.
+
+(* the engine's `number + string` reads the string with Go's strconv.ParseFloat; a string with a byte that occurs in
+   no numeral (decimal / hexadecimal digits, . + - _ x p, the letters of inf / infinity / nan) is read as 0 *)
+Definition numeral_byte (c : ascii) : bool :=
+  existsb (Ascii.eqb c) (B "0123456789abcdefABCDEFxXpP.+-_iInNtTyY").
+Definition not_numeral (s : bytes) : bool := existsb (fun c => negb (numeral_byte c)) s.
+
 Definition dom04 (c : case04) : bool :=
   forallb (shape04 (k_opaque c)) (c_nodes (k_case c)) && forallb never_false (c_datas (k_case c)) &&
+  forallb z_zero (c_datas (k_case c)) && forallb nl_nil (c_datas (k_case c)) && not_numeral (k_h c) && not_numeral (k_m c) &&
   data_ok (k_m c) (c_datas (k_case c)) && special_free (k_m c) && no_edge_ws (k_h c) && no_edge_ws (k_m c) &&
   negb (containsb (k_m c) (o_code (c_prod (k_case c)))).
 
